@@ -34,6 +34,7 @@ THREADS = [1, 2, 3, 16]
 RTOL = 1e-12
 # the harness switches thread counts with omp_set_num_threads (up to 16 on a shared machine): let idle threads sleep instead of spinning
 OMPENV = {"OMP_WAIT_POLICY": "PASSIVE", "GOMP_SPINCOUNT": "0"}
+STATS = {"fd_entries_checked": 0, "fd_entries_skipped_kink_or_roundoff": 0, "exact_cases": 0, "tolerance_cases": 0, "minibatch_lines": 0}
 NAMES = {"sq": "SquaredLoss<RealVector,RealVector>", "sqc": "SquaredLoss<RealVector,unsigned int>", "hinge": "HingeLoss", "sqhinge": "SquaredHingeLoss",
          "eps": "EpsilonHingeLoss", "sqeps": "SquaredEpsilonHingeLoss", "huber": "HuberLoss", "abs": "AbsoluteLoss", "ce": "CrossEntropy<unsigned int,RealVector>",
          "cev": "CrossEntropy<RealVector,RealVector>", "zov": "ZeroOneLoss<unsigned int,RealVector>", "zo": "ZeroOneLoss<unsigned int,unsigned int>", "disc": "DiscreteLoss"}
@@ -281,6 +282,10 @@ def mon_L(line, out, tol):
     exact = tol == 0
     eq = (lambda a, b, sc=0.0: a == b or (math.isnan(a) and math.isnan(b))) if exact else (lambda a, b, sc=0.0: close(a, b, sc, tol))
     sc = max([abs(x) for x in ev if finite(x)] + [0.0])
+    if name in ("ce", "cev"):
+        # log-sum-exp minus the label logit: the result is a difference of numbers of the size of the logits (conditioning, not a defect)
+        try: sc = max([sc] + [abs(float(pq(x))) for x in sections(line)[2]])
+        except (OverflowError, ValueError): pass
     if all_finite(ev) and finite(v):
         sev = float(fsum_exact(ev)) if ev else 0.0
         if not eq(v, sev, sc): bad.append("L:%s:batch-vs-elements| %s: eval on the batch = %r but the sum of the single-element evals = %r" % (name, shape(line), v, sev))
@@ -332,7 +337,9 @@ def mon_D(line, out):
     g, f1, f2, v = fhl(d["g"]), fhl(d["fd"]), fhl(d["fd2"]), fh(d["v"])
     for j, (a, b, c) in enumerate(zip(g, f1, f2)):
         if not (finite(b) and finite(c) and finite(v)): continue
-        if abs(b - c) > 1e-6 * max(1.0, abs(b)) + 3e-9 * abs(v): continue      # kink or round-off: the two step sizes disagree
+        if abs(b - c) > 1e-6 * max(1.0, abs(b)) + 3e-9 * abs(v):      # kink or round-off: the two step sizes disagree
+            STATS["fd_entries_skipped_kink_or_roundoff"] += 1; continue
+        STATS["fd_entries_checked"] += 1
         if abs(a - b) > 1e-5 * max(1.0, abs(a), abs(b)) + 3e-10 * abs(v):
             return ["D:%s:gradient-vs-finite-differences| %s: gradient entry %d = %r, central difference of eval = %r (h=2^-17) / %r (h=2^-20)" % (name, shape(line), j, a, b, c)]
     return []
@@ -349,6 +356,7 @@ def mon_case(lines, outs):
     hd0 = sections(lines[0])[0]
     exact = not any(("x" in t or "." in t) for t in lines[0].split() if t not in hd0)
     tol = 0 if exact else RTOL
+    STATS["exact_cases" if exact else "tolerance_cases"] += 1
     base = toks(outs[0])
     for line, out in zip(lines, outs):
         s = sections(line); hd = s[0]; k = hd[0]; d = toks(out)
@@ -360,7 +368,11 @@ def mon_case(lines, outs):
             v = fh(base["v"]); n = len(fhl(base["ev"])); m = fh(d["m"])
             if n and finite(v):
                 want = float(Fraction(v) / n)
-                if not (m == want if exact else close(m, want, 0, RTOL)):
+                msc = 0.0
+                if hd[1] in ("ce", "cev"):      # conditioning of log-sum-exp minus label logit, see mon_L
+                    try: msc = max(abs(float(pq(x))) for x in s[3])
+                    except (OverflowError, ValueError): pass
+                if not (m == want if exact else close(m, want, msc, RTOL)):
                     bad.append("M:%s:dataset-mean| AbstractLoss::eval(Data,Data) %s = %r, but (loss on all elements)/n = %r" % (hd[1], shape(line), m, want))
         elif k in ("E", "W", "R", "F"):
             v, dv, g = fh(d["v"]), fh(d["dv"]), fhl(d["g"]); el = fhl(d["el"]); n = len(el)
@@ -401,7 +413,9 @@ def mon_case(lines, outs):
                 f1, f2 = fhl(d["fd"]), fhl(d["fd2"])
                 for j, (a, b, c) in enumerate(zip(g, f1, f2)):
                     if not (finite(b) and finite(c)): continue
-                    if abs(b - c) > 1e-6 * max(1.0, abs(b)) + 3e-9 * abs(v): continue
+                    if abs(b - c) > 1e-6 * max(1.0, abs(b)) + 3e-9 * abs(v):
+                        STATS["fd_entries_skipped_kink_or_roundoff"] += 1; continue
+                    STATS["fd_entries_checked"] += 1
                     if abs(a - b) > 1e-5 * max(1.0, abs(a), abs(b)) + 3e-10 * abs(v):
                         bad.append("F:%s:%s:gradient-vs-finite-differences| ErrorFunction %s: derivative entry %d = %r, central difference of eval = %r / %r" % (name, hd[6], shape(line), j, a, b, c)); break
         elif k == "B":
@@ -529,13 +543,13 @@ def main():
             for f in sorted(os.listdir(cdir)):
                 ls = [l for l in open(os.path.join(cdir, f)).read().split("\n") if l.strip() and not l.startswith("#")]
                 (zcases if ls and ls[0].startswith("Z ") else cases).append(ls)
-        cases += [gen_loss_case(rng, True) for _ in range(260 * k)]
-        cases += [gen_loss_case(rng, False) for _ in range(160 * k)]
-        cases += [gen_ef_case(rng, True) for _ in range(200 * k)]
-        cases += [gen_ef_case(rng, False) for _ in range(110 * k)]
-        cases += [gen_reg_case(rng) for _ in range(60 * k)]
-        cases += [gen_auc_case(rng) for _ in range(60 * k)]
-        zcases += [gen_zw_case(rng) for _ in range(60 * k)]
+        cases += [gen_loss_case(rng, True) for _ in range(500 * k)]
+        cases += [gen_loss_case(rng, False) for _ in range(300 * k)]
+        cases += [gen_ef_case(rng, True) for _ in range(350 * k)]
+        cases += [gen_ef_case(rng, False) for _ in range(200 * k)]
+        cases += [gen_reg_case(rng) for _ in range(100 * k)]
+        cases += [gen_auc_case(rng) for _ in range(100 * k)]
+        zcases += [gen_zw_case(rng) for _ in range(100 * k)]
 
     def search(dcases):
         out = []
@@ -645,6 +659,7 @@ def main():
     ck.notes["line_kinds"] = kinds
     ck.notes["losses"] = sorted(set(l.split()[1] for l in flat if l[0] in "LMDEWRFB"))
     ck.notes["thread_counts"] = THREADS
+    ck.notes["monitor_stats"] = dict(STATS)
     ck.finish()
 
 
